@@ -1,9 +1,238 @@
-(* C07 - Gate modifiers (dagger, controlled, power, exp) mean what they say.  (work in progress) *)
-Require Import Coq.Arith.Arith Coq.Lists.List Coq.Strings.String.
-Require Import OQ.Circ.GateAst.
+(* C07 - Gate modifiers (dagger, controlled, power, exp) mean what they say.
+   Property theorems only; every proof is [exact <lemma>].  Model: Circ/GateAst.v (hand-written mirror of the
+   method bodies of circuits/_gates.py, tied to the running code by the correspondence cases of harness/c07.py).
+   sympy's Matrix.exp(), inv() and fractional ** are fields of an [oracles] record; what is assumed about
+   them appears as a premise ([exp_laws], [inv_laws], [frac_laws], or a premise at one matrix) of the theorem
+   that needs it.  Proofs: Circ/GateAstProofs.v, GateAstSemProofs.v, GateAstInstProofs.v. *)
+Require Import Coq.Arith.Arith Coq.ZArith.ZArith Coq.Lists.List Coq.Strings.String Coq.Bool.Bool.
+Require Import OQ.Base.Ring OQ.Base.Sums OQ.Base.Mat.
+Require Import OQ.Circ.GateAst OQ.Circ.GateAstProofs OQ.Circ.GateAstSemProofs OQ.Circ.GateAstCases
+  OQ.Circ.GateAstInstProofs.
 Import ListNotations.
 
-Theorem placeholder_exp_wraps : forall (P : Type) (pfree : P -> bool) (g g' : gate P),
-  gexp pfree g = Some g' -> g' = Exp g.
-Proof. intros P pfree g g'. unfold gexp, mk_exp. destruct (has_free pfree g); congruence. Qed.
-Print Assumptions placeholder_exp_wraps.
+(* ------------------------------------------------------------------ reported qubit count and parameters *)
+(* any chain of calls, any depth and order, from any gate: qubits = receiver's + sum of the control counts *)
+Theorem num_qubits_chain : forall (P : Type) (pfree : P -> bool) (ms : list modifier) (g r : gate P),
+  apply_chain pfree ms g = Some r ->
+  num_qubits r = num_qubits g + ctrl_total ms /\ params r = params g.
+Proof. exact chain_shape. Qed.
+Print Assumptions num_qubits_chain.
+
+Theorem params_chain : forall (P : Type) (pfree : P -> bool) (ms : list modifier) (g r : gate P),
+  apply_chain pfree ms g = Some r -> params r = params g.
+Proof. intros P pfree ms g r H. exact (proj2 (chain_shape P pfree ms g r H)). Qed.
+Print Assumptions params_chain.
+
+Example chain_premises_met :
+  apply_chain (fun _ : nat => false) [MDag; MCtrl 2; MPow (ERoot 2); MCtrl 1; MDag] (Base "S" [] 1 false)
+  = Some (Ctrl (Pow (Base "S" [] 1 false) (ERoot 2)) 3).
+Proof. vm_compute. reflexivity. Qed.
+
+(* calls that raise: a power or exponential of a gate with free symbols, zero controls on an uncontrolled gate *)
+Theorem free_symbols_are_rejected : forall (P : Type) (pfree : P -> bool) (e : exponent) (g : gate P),
+  has_free pfree g = true -> power pfree e g = None /\ gexp pfree g = None.
+Proof. exact free_symbols_rejected. Qed.
+Print Assumptions free_symbols_are_rejected.
+
+Theorem zero_controls_are_rejected : forall (P : Type) (pfree : P -> bool) (g : gate P),
+  nf pfree g = true -> is_ctrl g = false -> controlled pfree 0 g = None.
+Proof. exact zero_controls_rejected. Qed.
+Print Assumptions zero_controls_are_rejected.
+
+(* ------------------------------------------------------------------ shape of reachable gates *)
+(* every gate obtained from a base gate by method calls is in normal form: a Dagger node only directly on a
+   base gate not flagged self-adjoint, controls merged into one node, powers pushed under the controls *)
+Theorem reachable_normal_form : forall (P : Type) (pfree : P -> bool) (g : gate P),
+  reachable P pfree g -> nf pfree g = true.
+Proof. exact reachable_nf. Qed.
+Print Assumptions reachable_normal_form.
+
+Theorem normal_form_preserved : forall (P : Type) (pfree : P -> bool) (m : modifier) (g r : gate P),
+  nf pfree g = true -> apply_mod pfree m g = Some r -> nf pfree r = true.
+Proof. exact nf_apply_mod. Qed.
+Print Assumptions normal_form_preserved.
+
+(* on reachable gates the dagger is an involution on the structure *)
+Theorem dagger_twice_is_identity : forall (P : Type) (pfree : P -> bool) (g : gate P),
+  nf pfree g = true -> obind (dagger pfree g) (dagger pfree) = Some g.
+Proof. exact dag_dag_nf. Qed.
+Print Assumptions dagger_twice_is_identity.
+
+(* ------------------------------------------------------------------ replace_params *)
+(* replacing the parameters of a modified gate = modifying the gate built with the new parameters, for every
+   constructible gate expression [wf], every modifier, and every chain (structural equality, errors included) *)
+Theorem replace_params_commutes : forall (P : Type) (pfree : P -> bool) (ps : list P) (m : modifier) (g g1 : gate P),
+  wf pfree g = true -> apply_mod pfree m g = Some g1 ->
+  replace_params pfree ps g1 = obind (replace_params pfree ps g) (apply_mod pfree m).
+Proof. exact replace_params_mod. Qed.
+Print Assumptions replace_params_commutes.
+
+Theorem replace_params_commutes_chain : forall (P : Type) (pfree : P -> bool) (ps : list P) (ms : list modifier)
+  (g g1 : gate P),
+  wf pfree g = true -> apply_chain pfree ms g = Some g1 ->
+  replace_params pfree ps g1 = obind (replace_params pfree ps g) (apply_chain pfree ms).
+Proof. exact replace_params_chain. Qed.
+Print Assumptions replace_params_commutes_chain.
+
+Theorem replace_params_reports : forall (P : Type) (pfree : P -> bool) (ps : list P) (g r : gate P),
+  replace_params pfree ps g = Some r -> params r = ps /\ num_qubits r = num_qubits g.
+Proof. exact replace_params_params. Qed.
+Print Assumptions replace_params_reports.
+
+Example replace_premises_met :
+  wf cfree (Base "RX" [CNum (QArith_base.Qmake 1 1)] 1 false) = true /\
+  apply_chain cfree [MDag; MCtrl 1; MPow (EInt 2)] (Base "RX" [CNum (QArith_base.Qmake 1 1)] 1 false)
+  = Some (Ctrl (Pow (Dag (Base "RX" [CNum (QArith_base.Qmake 1 1)] 1 false)) (EInt 2)) 1) /\
+  replace_params cfree [CSym "t"] (Ctrl (Pow (Dag (Base "RX" [CNum (QArith_base.Qmake 1 1)] 1 false)) (EInt 2)) 1) = None /\
+  replace_params cfree [CNum (QArith_base.Qmake 2 1)] (Ctrl (Pow (Dag (Base "RX" [CNum (QArith_base.Qmake 1 1)] 1 false)) (EInt 2)) 1)
+  = Some (Ctrl (Pow (Dag (Base "RX" [CNum (QArith_base.Qmake 2 1)] 1 false)) (EInt 2)) 1).
+Proof. vm_compute. repeat split. Qed.
+
+(* ------------------------------------------------------------------ block-diagonal algebra of diag(I, U) *)
+Theorem diag_id_product : forall (K : cring) (a d : nat) (U V : Mat K),
+  mat_eq (a + d) (mmul (a + d) (diag_id a U) (diag_id a V)) (diag_id a (mmul d U V)).
+Proof. exact diag_id_mmul. Qed.
+Print Assumptions diag_id_product.
+
+Theorem diag_id_adjoint : forall (K : cring) (a : nat) (U : Mat K) (i j : nat),
+  adj (diag_id a U) i j = diag_id a (adj U) i j.
+Proof. exact diag_id_adj. Qed.
+Print Assumptions diag_id_adjoint.
+
+Theorem diag_id_identity : forall (K : cring) (a i j : nat), diag_id a (@eye K) i j = eye i j.
+Proof. exact diag_id_eye. Qed.
+Print Assumptions diag_id_identity.
+
+Theorem diag_id_nested : forall (K : cring) (a b : nat) (U : Mat K) (i j : nat),
+  diag_id a (diag_id b U) i j = diag_id (a + b) U i j.
+Proof. exact diag_id_nest. Qed.
+Print Assumptions diag_id_nested.
+
+Theorem diag_id_power : forall (K : cring) (a d : nat) (U : Mat K) (n : nat),
+  mat_eq (a + d) (mpow (a + d) (diag_id a U) n) (diag_id a (mpow d U n)).
+Proof. exact diag_id_mpow. Qed.
+Print Assumptions diag_id_power.
+
+(* controls come first: with the target register in the low-order part of the index, the block-diagonal
+   matrix is U when every control bit is 1 and the identity otherwise *)
+Theorem controlled_acts_when_all_controls_set : forall (K : cring) (n k : nat) (U : Mat K) (i j : nat),
+  i < 2 ^ (n + k) -> j < 2 ^ (n + k) ->
+  diag_id (2 ^ (n + k) - 2 ^ n) U i j =
+  if Nat.eqb (i / 2 ^ n) (2 ^ k - 1) && Nat.eqb (j / 2 ^ n) (2 ^ k - 1)
+  then U (i mod 2 ^ n) (j mod 2 ^ n) else eye i j.
+Proof. exact diag_id_controlled_entries. Qed.
+Print Assumptions controlled_acts_when_all_controls_set.
+
+(* ------------------------------------------------------------------ controlled *)
+(* every reachable gate, every exponent kind, no assumption about sympy: matrix of g.controlled(k) is
+   diag(I_{2^(n+k) - 2^n}, matrix of g), merged counts included *)
+Theorem controlled_sem_reachable : forall (K : cring) (P : Type) (pfree : P -> bool) (o : oracles K P)
+  (k : nat) (g g' : gate P),
+  nf pfree g = true -> controlled pfree k g = Some g' ->
+  mat_eq (2 ^ (num_qubits g + k)) (sem o g') (diag_id (2 ^ (num_qubits g + k) - 2 ^ num_qubits g) (sem o g)).
+Proof. exact controlled_sem_nf. Qed.
+Print Assumptions controlled_sem_reachable.
+
+(* every gate expression, including directly constructed ones where Dagger.controlled / Power.controlled
+   re-associate (uses the sympy laws; under a Dagger node the side condition of dagger_sem) *)
+Theorem controlled_sem_all : forall (K : cring) (P : Type) (pfree : P -> bool) (o : oracles K P)
+  (k : nat) (g g' : gate P),
+  exp_laws o -> inv_laws o -> frac_laws o ->
+  controlled pfree k g = Some g' -> ctrl_ok o g ->
+  mat_eq (2 ^ (num_qubits g + k)) (sem o g') (diag_id (2 ^ (num_qubits g + k) - 2 ^ num_qubits g) (sem o g)).
+Proof. exact controlled_sem. Qed.
+Print Assumptions controlled_sem_all.
+
+(* ------------------------------------------------------------------ dagger *)
+Theorem dagger_sem_all : forall (K : cring) (P : Type) (pfree : P -> bool) (o : oracles K P) (g g' : gate P),
+  exp_laws o -> inv_laws o ->
+  dagger pfree g = Some g' -> herm_flags_sound o g -> int_powers_only g = true ->
+  mat_eq (dim g) (sem o g') (adj (sem o g)).
+Proof. exact dagger_sem. Qed.
+Print Assumptions dagger_sem_all.
+
+Theorem exp_dagger : forall (K : cring) (P : Type) (pfree : P -> bool) (o : oracles K P) (g e1 e2 : gate P),
+  exp_laws o -> inv_laws o ->
+  gexp pfree g = Some e1 -> dagger pfree e1 = Some e2 -> herm_flags_sound o g -> int_powers_only g = true ->
+  (exists dg, dagger pfree g = Some dg /\ e2 = Exp dg) /\
+  mat_eq (dim g) (sem o e2) (adj (o_exp o (dim g) (sem o g))).
+Proof. exact exp_dagger_sem. Qed.
+Print Assumptions exp_dagger.
+
+(* exp.  Full statement wanted: "the matrix of g.exp is the matrix exponential sum_n M^n / n! of the matrix of g".
+   The series (a limit) is not formalised over the abstract ring; proved: the matrix is sympy's Matrix.exp() of the
+   wrapped matrix, with qubits and parameters unchanged.  That Matrix.exp() is the exponential is checked on the
+   implementation by the scipy.linalg.expm oracle only. *)
+Theorem exp_matrix_partial : forall (K : cring) (P : Type) (pfree : P -> bool) (o : oracles K P) (g g' : gate P),
+  gexp pfree g = Some g' ->
+  sem o g' = o_exp o (dim g) (sem o g) /\ num_qubits g' = num_qubits g /\ params g' = params g.
+Proof. exact exp_sem. Qed.
+Print Assumptions exp_matrix_partial.
+
+(* Power.dagger = wrapped.dagger.power(e) is NOT the adjoint for fractional e (finding F8): with sympy's value
+   diag(1, i) for Z ** 0.5 - a genuine square root - the matrix of Z.power(0.5).dagger is not the adjoint of the
+   matrix of Z.power(0.5).  [dagger_sem_all] therefore cannot drop [int_powers_only]. *)
+Theorem power_dagger_refuted : forall (P : Type) (pfree : P -> bool) (o : oracles GQring P),
+  mat_eq 2 (o_factory o "Z" []) zmat ->
+  mat_eq 2 (o_root o 2 2 (o_factory o "Z" [])) sqrt_zmat ->
+  exists g1 g2 : gate P,
+    power pfree (ERoot 2) zgate = Some g1 /\ dagger pfree g1 = Some g2 /\
+    herm_flags_sound o g1 /\
+    mat_eq (dim g1) (mpow (dim g1) (sem o g1) 2) (sem o zgate) /\
+    ~ mat_eq (dim g1) (sem o g2) (adj (sem o g1)).
+Proof. exact power_dagger_refuted_gen. Qed.
+Print Assumptions power_dagger_refuted.
+
+Example power_dagger_refuted_premises_met :
+  mat_eq 2 (o_factory f8_oracles "Z" []) zmat /\
+  mat_eq 2 (o_root f8_oracles 2 2 (o_factory f8_oracles "Z" [])) sqrt_zmat.
+Proof. exact f8_oracles_premises. Qed.
+
+(* ------------------------------------------------------------------ power *)
+(* non-negative integer: the repeated product, also through ControlledGate.power (no assumption about sympy) *)
+Theorem power_int_nonneg : forall (K : cring) (P : Type) (pfree : P -> bool) (o : oracles K P) (z : Z) (g g' : gate P),
+  (0 <= z)%Z -> power pfree (EInt z) g = Some g' ->
+  mat_eq (dim g) (sem o g') (mpow (dim g) (sem o g) (Z.to_nat z)).
+Proof. exact power_nonneg_sem. Qed.
+Print Assumptions power_int_nonneg.
+
+(* negative integer: result times the |z|-th power of the original is the identity, provided sympy's inv()
+   returned a left inverse of the matrix under the controls *)
+Theorem power_int_negative : forall (K : cring) (P : Type) (pfree : P -> bool) (o : oracles K P) (z : Z) (g g' : gate P),
+  (z < 0)%Z -> power pfree (EInt z) g = Some g' ->
+  (let s := strip_ctrl g in mat_eq (dim s) (mmul (dim s) (o_inv o (dim s) (sem o s)) (sem o s)) eye) ->
+  mat_eq (dim g) (mmul (dim g) (sem o g') (mpow (dim g) (sem o g) (Z.to_nat (- z)))) eye.
+Proof. exact power_neg_sem. Qed.
+Print Assumptions power_int_negative.
+
+(* unit fraction 1/q: the q-th power of the result is the original, provided sympy's M ** (1/q) returned a
+   q-th root of the matrix under the controls *)
+Theorem power_root : forall (K : cring) (P : Type) (pfree : P -> bool) (o : oracles K P) (q : positive) (g g' : gate P),
+  power pfree (ERoot q) g = Some g' ->
+  (let s := strip_ctrl g in mat_eq (dim s) (mpow (dim s) (o_root o q (dim s) (sem o s)) (Pos.to_nat q)) (sem o s)) ->
+  mat_eq (dim g) (mpow (dim g) (sem o g') (Pos.to_nat q)) (sem o g).
+Proof. exact power_root_sem. Qed.
+Print Assumptions power_root.
+
+(* any exponent: the matrix of g.power(e) is (matrix of g) ** e although ControlledGate.power pushes inside *)
+Theorem power_sem_all : forall (K : cring) (P : Type) (pfree : P -> bool) (o : oracles K P) (e : exponent) (g g' : gate P),
+  inv_laws o -> frac_laws o -> power pfree e g = Some g' ->
+  mat_eq (dim g) (sem o g') (mpowz o (dim g) (sem o g) e).
+Proof. exact power_sem. Qed.
+Print Assumptions power_sem_all.
+
+(* the law records and the premises above are satisfiable together (toy instance: exp M = I + M, inv M = M on
+   the involution X, roots M on idempotents) *)
+Example laws_satisfiable : exp_laws toy_oracles /\ inv_laws toy_oracles /\ frac_laws toy_oracles.
+Proof. exact (conj toy_exp_laws (conj toy_inv_laws toy_frac_laws)). Qed.
+
+Example power_int_negative_premises_met :
+  let s : gate unit := strip_ctrl (Ctrl (Base "X" [] 1 true) 1) in
+  mat_eq (dim s) (mmul (dim s) (o_inv toy_oracles (dim s) (sem toy_oracles s)) (sem toy_oracles s)) eye.
+Proof. exact toy_inv_premise. Qed.
+
+(* ------------------------------------------------------------------ evaluation used by the correspondence cases *)
+Theorem case_evaluation_is_sem : forall (o : oracles GQring cparam) (g : gate cparam),
+  oracle_free g = true -> mat_eq (dim g) (sem_memo o g) (sem o g).
+Proof. exact sem_memo_eq. Qed.
+Print Assumptions case_evaluation_is_sem.
